@@ -87,6 +87,9 @@ func (s *storageAdapter) executeQuery(ctx context.Context) {
 	case promql.Matrix:
 		s.series = make([]engstore.SignedSeries, len(val))
 		for i, series := range val {
+			// The query is closed when this function returns, and a query of the
+			// Prometheus engine recycles the points of its result on Close: keep a copy.
+			series.Points = append([]promql.Point(nil), series.Points...)
 			s.series[i] = engstore.SignedSeries{
 				Signature: uint64(i),
 				Series:    promql.NewStorageSeries(series),
